@@ -122,6 +122,12 @@ func (p *Program) buildFuncUnit(fn *ssa.Function) (ur *UnitResult) {
 	f := g.newFrame(fn, true)
 	ur.frame = f
 	ur.HasSpec = f.contract != nil
+	if f.contract != nil {
+		g.reveals = map[string]bool{}
+		for _, n := range f.contract.Reveals {
+			g.reveals[n] = true
+		}
+	}
 	st := g.newEpochState()
 	g.entry = st
 	wm0 := g.heapGet(st, allocHeap, allocSort)
@@ -180,6 +186,8 @@ func (p *Program) buildFuncUnit(fn *ssa.Function) (ur *UnitResult) {
 			o.Ret = rp
 		}
 	}
+	// ground instances of quantified hypotheses (sequential: touches shared tables)
+	ur.Instances = g.instantiate(2)
 	return ur
 }
 
@@ -199,6 +207,10 @@ func (p *Program) buildLemmaUnit(l *Lemma) (ur *UnitResult) {
 			}
 		}
 	}()
+	g.reveals = map[string]bool{}
+	for _, n := range l.Reveals {
+		g.reveals[n] = true
+	}
 	st := g.newEpochState()
 	g.entry = st
 	g.assume("true", wmInv(g.heapGet(st, allocHeap, allocSort)))
@@ -227,6 +239,7 @@ func (p *Program) buildLemmaUnit(l *Lemma) (ur *UnitResult) {
 		g.endGoal()
 		o.Clause = en.Text
 	}
+	ur.Instances = g.instantiate(2)
 	return ur
 }
 
@@ -375,7 +388,6 @@ func (ur *UnitResult) discharge(opt Options) {
 	if ur.Error != "" || g == nil {
 		return
 	}
-	ur.Instances = g.instantiate(2)
 	ur.Notes = sortedKeys(g.Notes)
 	ur.Quant = g.hasQuantAsm()
 	for _, o := range g.Obls {
